@@ -97,6 +97,38 @@ theorem addBin_spec (bins : List CBin) (bin : Nat) (c : Chunk)
           · left; exact ⟨bn, List.mem_cons_of_mem _ h1, h2, h3, h4⟩
           · right; exact h
 
+theorem extendChunks_length_le (cs : List Chunk) (c : Chunk) : (extendChunks cs c).length ≤ cs.length + 1 := by
+  induction cs with
+  | nil => simp [extendChunks]
+  | cons x xs ih =>
+    unfold extendChunks
+    split
+    · simp
+    · simp only [List.length_cons]; omega
+
+/-- sizes after `addBin`: every bin is an old one with at most one more chunk and record, or the new one -/
+theorem addBin_sizes (bins : List CBin) (bin : Nat) (c : Chunk) :
+    ∀ bn', bn' ∈ (addBin bins bin c).1 →
+      (∃ bn, bn ∈ bins ∧ bn'.bin = bn.bin ∧ bn'.left = bn.left ∧ bn'.chunks.length ≤ bn.chunks.length + 1 ∧
+        bn'.records ≤ bn.records + 1) ∨ bn' = ⟨bin, c.b, 1, [c]⟩ := by
+  induction bins with
+  | nil => intro bn' hb; right; simpa [addBin] using hb
+  | cons b bs ih =>
+    intro bn' hbn'
+    by_cases heq : b.bin = bin
+    · subst heq
+      simp only [addBin, if_true] at hbn'
+      rcases List.mem_cons.1 hbn' with rfl | hbn'
+      · left
+        exact ⟨b, List.mem_cons_self, rfl, rfl, extendChunks_length_le _ _, Nat.le_refl _⟩
+      · left; exact ⟨bn', List.mem_cons_of_mem _ hbn', rfl, rfl, by omega, by omega⟩
+    · simp only [addBin, heq, if_false] at hbn'
+      rcases List.mem_cons.1 hbn' with rfl | hbn'
+      · left; exact ⟨bn', List.mem_cons_self, rfl, rfl, by omega, by omega⟩
+      · rcases ih bn' hbn' with ⟨bn, h1, h2, h3, h4, h5⟩ | h
+        · left; exact ⟨bn, List.mem_cons_of_mem _ h1, h2, h3, h4, h5⟩
+        · right; exact h
+
 theorem addBin_nums (bins : List CBin) (bin : Nat) (c : Chunk) :
     ((addBin bins bin c).1.map (·.bin) = bins.map (·.bin) ∧ bin ∈ bins.map (·.bin)) ∨
     ((addBin bins bin c).1.map (·.bin) = bins.map (·.bin) ++ [bin] ∧ bin ∉ bins.map (·.bin)) := by
@@ -140,13 +172,21 @@ structure CRefInv (bf : CRec → Nat) (ref : CRef) (h : List CRec) : Prop where
   leftLe : ∀ bn, bn ∈ ref.bins → ∃ a, a ∈ h ∧ bn.left ≤ a.chunk.b
   nodup : (ref.bins.map (·.bin)).Nodup
   stats : ref.stats = statsOfC h
+  /-- sizes: at most one bin, one chunk and one counted record per added record; the left offset and
+  the bin number of every bin come from a record -/
+  binsLen : ref.bins.length ≤ h.length
+  binRec : ∀ bn, bn ∈ ref.bins → ∃ a, a ∈ h ∧ bf a = bn.bin ∧ ∃ a', a' ∈ h ∧ bn.left = a'.chunk.b
+  chunksLen : ∀ bn, bn ∈ ref.bins → bn.chunks.length ≤ h.length ∧ bn.records ≤ h.length
 
 theorem cRefInv_empty (bf : CRec → Nat) : CRefInv bf emptyRef [] :=
   { bins := by intro r hr; cases hr
     stored := by intro bn hb; cases hb
     leftLe := by intro bn hb; cases hb
     nodup := List.nodup_nil
-    stats := rfl }
+    stats := rfl
+    binsLen := Nat.le_refl _
+    binRec := by intro bn hb; cases hb
+    chunksLen := by intro bn hb; cases hb }
 
 theorem cRefInv_step (bf : CRec → Nat) (ms d : Nat) (ref : CRef) (h : List CRec) (last : Int) (r : CRec)
     (inv : CRefInv bf ref h) (hok : CRecOK ms d r) (hall : ∀ a, a ∈ h → CRecOK ms d a)
@@ -163,8 +203,31 @@ theorem cRefInv_step (bf : CRec → Nat) (ms d : Nat) (ref : CRef) (h : List CRe
   simp only [hnot, if_false]
   refine ⟨by trivial, by trivial, ?_⟩
   have hce := hok.ce
+  have sizes := addBin_sizes ref.bins (bf r) r.chunk
   refine { bins := ?_, stored := ?_, leftLe := ?_, nodup := addBin_nodup _ _ _ inv.nodup,
-           stats := (by simp only [statsOfC, inv.stats]) }
+           stats := (by simp only [statsOfC, inv.stats]), binsLen := ?_, binRec := ?_, chunksLen := ?_ }
+  rotate_left 3
+  · -- binsLen
+    have hl : (addBin ref.bins (bf r) r.chunk).1.length = ((addBin ref.bins (bf r) r.chunk).1.map (·.bin)).length := by
+      rw [List.length_map]
+    have hl0 : ref.bins.length = (ref.bins.map (·.bin)).length := by rw [List.length_map]
+    have := inv.binsLen
+    simp only [List.length_cons]
+    rcases addBin_nums ref.bins (bf r) r.chunk with ⟨h1, _⟩ | ⟨h1, _⟩
+    · rw [hl, h1, ← hl0]; omega
+    · rw [hl, h1, List.length_append, ← hl0]; simp; omega
+  · -- binRec
+    intro bn' hbn'
+    rcases sizes bn' hbn' with ⟨bn, h1, h2, h3, _, _⟩ | h
+    · obtain ⟨a, ha, hab, a', ha', hl⟩ := inv.binRec bn h1
+      exact ⟨a, List.mem_cons_of_mem _ ha, by rw [hab, h2], a', List.mem_cons_of_mem _ ha', by rw [h3, hl]⟩
+    · subst h; exact ⟨r, List.mem_cons_self, rfl, r, List.mem_cons_self, rfl⟩
+  · -- chunksLen
+    intro bn' hbn'
+    simp only [List.length_cons]
+    rcases sizes bn' hbn' with ⟨bn, h1, _, _, h4, h5⟩ | h
+    · have := inv.chunksLen bn h1; omega
+    · subst h; simp
   · intro a ha
     rcases List.mem_cons.1 ha with rfl | ha
     · refine ⟨bn0, hbn0, hbin0, hc0, ?_⟩
@@ -508,6 +571,33 @@ theorem addAll_unmapped (binOf : Int → Int → Nat → Nat → Nat) (ms d : Na
       rw [ih (add binOf i r).1 h2 h3 (fun x hx => hv x (List.mem_cons_of_mem _ hx)) (by simp), h1]
       simp only [umCount, List.countP_cons]
       cases r.placed <;> simp <;> omega
+
+/-- `Add` never touches the version and the auxiliary bytes -/
+theorem add_fixed (binOf : Int → Int → Nat → Nat → Nat) (i : CIndex) (r : CRec) :
+    (add binOf i r).1.version = i.version ∧ (add binOf i r).1.aux = i.aux := by
+  unfold add
+  split
+  · exact ⟨rfl, rfl⟩
+  · split
+    · exact ⟨rfl, rfl⟩
+    · split
+      · exact ⟨rfl, rfl⟩
+      · simp only
+        split
+        · exact ⟨rfl, rfl⟩
+        · split <;> exact ⟨rfl, rfl⟩
+
+theorem addAll_fixed (binOf : Int → Int → Nat → Nat → Nat) : ∀ (recs : List CRec) (i : CIndex),
+    (addAll binOf i recs).1.version = i.version ∧ (addAll binOf i recs).1.aux = i.aux := by
+  intro recs
+  induction recs with
+  | nil => intro i; exact ⟨rfl, rfl⟩
+  | cons r rs ih =>
+    intro i
+    obtain ⟨h1, h2⟩ := ih (add binOf i r).1
+    obtain ⟨h3, h4⟩ := add_fixed binOf i r
+    simp only [addAll]
+    exact ⟨by rw [h1, h3], by rw [h2, h4]⟩
 
 /-! ### completeness of Chunks -/
 
